@@ -43,6 +43,29 @@ DEFAULTS = dict(
 )
 
 
+def variantise_phases(spec, rng):
+    """Rename one system phase into a case / blank VARIANT of another one ('tx' and 'TX', 'run' and 'run ') - two
+    distinct phases - consistently in the system phases and in every component's phase configuration."""
+    names = list((spec.get("phases") or {}).keys())
+    if len(names) < 2:
+        return spec
+    p_, q_ = rng.sample(names, 2)
+    new = rng.choice([p_.swapcase(), p_ + " ", " " + p_, p_.capitalize()])
+    if new in names or new == p_:
+        new = p_ + " "
+        if new in names:
+            return spec
+    ren = lambda x: new if x == q_ else x  # noqa: E731
+    spec["phases"] = {ren(k): v for k, v in spec["phases"].items()}
+    for c in spec["comps"]:
+        ph = c.get("phase")
+        if isinstance(ph, list):
+            c["phase"] = [ren(x) for x in ph]
+        elif isinstance(ph, dict):
+            c["phase"] = {ren(k): v for k, v in ph.items()}
+    return spec
+
+
 def gen_system(rng, **opts):
     o = dict(DEFAULTS)
     o.update(opts)
